@@ -187,6 +187,42 @@ func genKeys(repo string) (string, []string, error) {
 	emitListing(&b, &notes, sk, "Keeper.NoticeQueue", "noticeQueueListing")
 	emitListing(&b, &notes, sk, "Keeper.NoticeElapsedProposers", "noticeElapsedProposersListing")
 
+	// ---- x/dymns/types : buy-order ids ------------------------------------------------------------
+	dn, err := loadFiles(filepath.Join(repo, "x/dymns/types/buy_offer.go"), filepath.Join(repo, "x/dymns/types/constants.go"))
+	if err != nil {
+		return "", nil, err
+	}
+	trd := &bytesTranslator{p: dn, specs: map[string]*fnSpec{}, enumCases: map[string]string{}}
+	emitConstBytes(&b, &notes, trd, "BuyOrderIdTypeDymNamePrefix", "buyOrderIdTypeDymNamePrefix")
+	emitConstBytes(&b, &notes, trd, "BuyOrderIdTypeAliasPrefix", "buyOrderIdTypeAliasPrefix")
+	emitListing(&b, &notes, dn, "IsValidBuyOrderId", "isValidBuyOrderIdListing")
+	emitListing(&b, &notes, dn, "CreateBuyOrderId", "createBuyOrderIdListing")
+
+	// ---- x/iro/types : IRO denoms, plan keys -------------------------------------------------------
+	ir, err := loadFiles(filepath.Join(repo, "x/iro/types/plan.go"), filepath.Join(repo, "x/iro/types/keys.go"))
+	if err != nil {
+		return "", nil, err
+	}
+	tri := &bytesTranslator{p: ir, specs: map[string]*fnSpec{}, enumCases: map[string]string{}}
+	for _, sp := range []*fnSpec{
+		{goName: "IRODenom", leanName: "iRODenom", params: []paramSpec{psBytes}},
+		{goName: "PlanKey", leanName: "planKey", params: []paramSpec{psBytes}},
+		{goName: "PlansByRollappKey", leanName: "plansByRollappKey", params: []paramSpec{psBytes}},
+	} {
+		tri.specs[sp.goName] = sp
+		b.WriteString(tri.fn(sp) + "\n")
+	}
+	emitConstBytes(&b, &notes, tri, "IROTokenPrefix", "iROTokenPrefix")
+	emitConstBytes(&b, &notes, tri, "LastPlanIdKey", "lastPlanIdKey")
+	emitConstBytes(&b, &notes, tri, "ParamsKey", "iroParamsKey")
+	emitListing(&b, &notes, ir, "RollappIDFromIRODenom", "rollappIDFromIRODenomListing")
+	irk, err := loadFiles(filepath.Join(repo, "x/iro/keeper/iro.go"))
+	if err != nil {
+		return "", nil, err
+	}
+	emitListing(&b, &notes, irk, "Keeper.SetPlan", "setPlanListing")
+	notes = append(notes, tri.notes...)
+
 	b.WriteString("end DymVerif.Gen.Keys\n")
 	return b.String(), notes, nil
 }
